@@ -2,7 +2,7 @@
 
 Correspondence: the real run_timeout is called with instrumented functions whose duration sweeps across the limit
 (incl. exactly at it), that raise, that swallow the injected interrupt once, that block in native code (time.sleep),
-nested and back-to-back, repeated to vary scheduling. Each call yields an event trace (f_start, f_end_ok / f_end_err /
+nested and back-to-back, repeated to vary scheduling; workers that outlive the deadline by whole seconds. Each call yields an event trace (f_start, f_end_ok / f_end_err /
 f_killed, outcome) ordered by a monotonic clock; the driver decides whether it is a trace of the protocol model
 (op `tl_accepts`, Adsg.TL.obsAccepts). Additionally: an f that finished well within the limit must be returned / re-raised,
 a timeout may only be reported after the limit, KeyboardInterrupt must never surface in the caller, after the call no
@@ -15,7 +15,7 @@ from adsg_core.optimization.assign_enc.time_limiter import run_timeout
 
 RULE = ('behaviours {finish, raise ValueError, raise builtin TimeoutError, swallow the interrupt once, block in '
         'time.sleep, numpy busy loop} x durations {0, 0.3, 0.8, 0.95, 1.0, 1.05, 1.3, 3} x limit in {0.04, 0.08} s, '
-        'repeated; plus nested and back-to-back calls; a case is one call; non-trivial = duration within 20% of the limit, '
+        'repeated; swallow / sleep outliving the deadline by 1.5 and 3.2 s (thorough: up to 13 s); plus nested and back-to-back calls; a case is one call; non-trivial = duration within 20% of the limit, '
         'or the function swallows / blocks / is nested; distinct by (behaviour, relative duration, repetition)')
 BUDGET = {'quick': 70, 'thorough': 900}
 JOBS = {'quick': 2, 'thorough': 16}
@@ -171,6 +171,14 @@ def run(ctx, rep):
                     one_call(ctx, rep, batch, kind, rel, limit, rep_i)
                     if ctx.out_of_time():
                         break
+            if rep_i == 0:
+                # a worker that outlives the deadline by seconds (interrupt swallowed once / blocked in native code): the
+                # caller must not get control back before the worker has left f - catches a join that gives up after a while
+                for over in ctx.pick([1.5, 3.2], [1.5, 3.2, 6.5, 13.]):
+                    for kind in ('swallow', 'sleep'):
+                        i += 1
+                        if ctx.mine(i):
+                            one_call(ctx, rep, batch, kind, over / limit, limit, rep_i)
             one_call(ctx, rep, batch, 'finish', 2., limit, rep_i, nested=True)
             one_call(ctx, rep, batch, 'finish', .3, limit, rep_i, nested=True)
         if ctx.out_of_time():
